@@ -486,6 +486,90 @@ Proof.
   - intros. apply parse_desc_loop_g_fine. assumption.
 Qed.
 
+(* ---- the guard is exact: wherever the unguarded decoder does not panic, the guarded one returns the same ---- *)
+Lemma next4_takeN data : fst (next 4 (mkbuf data None)) = takeN 4 data.
+Proof. reflexivity. Qed.
+
+Lemma parse_descriptor_len8 o i0 i1 i2 i3 e0 e1 e2 e3 : be32 i0 i1 i2 i3 = segDescID ->
+  parse_descriptor o [i0; i1; i2; i3; e0; e1; e2; e3] = Err E.InvalidSCTE35Length.
+Proof.
+  intros Hid. unfold parse_descriptor, buf_new. rewrite next4. cbv beta iota zeta. rewrite be32_of_4. cbn [bind].
+  rewrite Hid. change (segDescID =? segDescID) with true. cbn [negb]. cbv beta iota zeta.
+  rewrite next4. cbv beta iota zeta. rewrite be32_of_4. cbn [bind]. reflexivity.
+Qed.
+
+Lemma parse_descriptor_g_agrees o data : parse_descriptor o data <> Panic ->
+  parse_descriptor_g o data = parse_descriptor o data.
+Proof.
+  intros Hnp. unfold parse_descriptor_g.
+  destruct (N.ltb_spec (len data) 4) as [H4|H4]; [exfalso; apply Hnp, parse_descriptor_short_panics; exact H4|].
+  destruct (be32_of_ok (takeN 4 data) ltac:(rewrite len_takeN; lia)) as [id Eid]. rewrite Eid. cbn [bind].
+  assert (Hhead : parse_descriptor o data =
+                  (if negb (id =? segDescID) then Err E.SCTE35InvalidDescriptorID else parse_descriptor o data)).
+  { destruct (negb (id =? segDescID)) eqn:En; [|reflexivity].
+    unfold parse_descriptor, buf_new. destruct (next 4 (mkbuf data None)) as [idb b1] eqn:E1.
+    assert (idb = takeN 4 data) by (rewrite <- next4_takeN, E1; reflexivity). subst idb. rewrite Eid. cbn [bind]. rewrite En. reflexivity. }
+  destruct (negb (id =? segDescID)) eqn:En; [symmetry; exact Hhead|].
+  destruct (N.ltb_spec (len data) 9) as [H9|H9]; [|reflexivity].
+  apply negb_false_iff, N.eqb_eq in En. subst id.
+  (* 4 <= len data <= 8 with identifier CUEI: 4..7 panics, 8 is the length error *)
+  destruct data as [|i0 [|i1 [|i2 [|i3 rest]]]]; try (unfold len in H4; cbn in H4; lia).
+  assert (Hid : be32 i0 i1 i2 i3 = segDescID).
+  { unfold be32_of, takeN in Eid. cbn in Eid. inversion Eid. reflexivity. }
+  destruct rest as [|e0 [|e1 [|e2 [|e3 [|x rest]]]]].
+  5: { symmetry. apply parse_descriptor_len8. exact Hid. }
+  5: { unfold len in H9. cbn [length] in H9. lia. }
+  all: exfalso; apply Hnp; unfold parse_descriptor, buf_new; rewrite next4; cbv beta iota zeta; rewrite be32_of_4; cbn [bind];
+    rewrite Hid; change (segDescID =? segDescID) with true; cbn [negb]; cbv beta iota zeta; reflexivity.
+Qed.
+
+Lemma parse_desc_loop_g_agrees : forall fuel owner dll br b other descs,
+  parse_desc_loop fuel owner dll br b other descs <> Panic ->
+  parse_desc_loop_g fuel owner dll br b other descs = parse_desc_loop fuel owner dll br b other descs.
+Proof.
+  induction fuel as [|fuel IH]; intros owner dll br b other descs Hnp; [reflexivity|].
+  cbn [parse_desc_loop parse_desc_loop_g] in *.
+  destruct (negb (br <? dll)); [reflexivity|].
+  destruct (read_byte0 b) as [tag b1]. destruct (read_byte0 b1) as [dl b2].
+  destruct (Z.of_N dll - Z.of_N br - 2 <? Z.of_N dl)%Z; [reflexivity|].
+  destruct (negb (tag =? segDescTag)); destruct (next dl b2) as [body b3].
+  - apply IH. exact Hnp.
+  - destruct (parse_descriptor (Some owner) body) as [d| | |] eqn:Ed; cbn [bind] in *.
+    + rewrite parse_descriptor_g_agrees by congruence. rewrite Ed. cbn [bind]. apply IH. exact Hnp.
+    + rewrite parse_descriptor_g_agrees by congruence. rewrite Ed. reflexivity.
+    + congruence.
+    + rewrite parse_descriptor_g_agrees by congruence. rewrite Ed. reflexivity.
+Qed.
+
+Theorem guard_exact data : new_scte35 data <> Panic -> new_scte35_guarded data = new_scte35 data.
+Proof.
+  unfold new_scte35, new_scte35_guarded. rewrite parse_table_is. unfold parse_table_with.
+  set (k1 := parse_descriptors_with parse_desc_loop 1 data).
+  set (k2 := parse_descriptors_with parse_desc_loop_g 1 data).
+  assert (K : forall b, k1 b <> Panic -> k2 b = k1 b).
+  { intros b. unfold k1, k2, parse_descriptors_with.
+    destruct (blen b <? 6); [reflexivity|]. destruct (next 2 b) as [lb b1].
+    destruct (be16_of lb) as [dll| | |]; cbn [bind]; try reflexivity.
+    destruct (blen b1 <? dll + 4); [reflexivity|].
+    destruct (parse_desc_loop (S (length data)) 1 dll 0 b1 [] []) as [r| | |] eqn:El; cbn [bind]; intros Hnp;
+      try (rewrite parse_desc_loop_g_agrees by congruence; rewrite El; reflexivity); try congruence. }
+  clearbody k1 k2.
+  repeat match goal with
+  | |- context [if ?c then _ else _] => destruct c
+  | |- context [let (_, _) := ?x in _] => destruct x
+  | |- context [bind ?r _] => match r with
+                              | ?k _ => is_var k; fail 1
+                              | _ => destruct r; cbn [bind]
+                              end
+  end; try reflexivity; try congruence.
+  all: intros Hnp;
+    match goal with
+    | K : forall b, ?ka b <> Panic -> ?kb b = ?ka b |- context [bind (?ka ?b) _] =>
+      destruct (ka b) as [[? ?]| | |] eqn:Ek; cbn [bind] in *;
+      try (rewrite (K b) by congruence; rewrite Ek; cbn [bind]; reflexivity); try congruence
+    end.
+Qed.
+
 (* ---- the remaining panics of the unguarded decoder, as concrete inputs (replayed on repo-fixed: notes/findings/C05-scte.md) ---- *)
 Definition short_desc_0 : bytes := [0;252;48;19;0;0;0;0;0;0;0;255;240;0;0;0;2;2;0;0;0;0;0].
 Definition short_desc_4 : bytes := [0;252;48;23;0;0;0;0;0;0;0;255;240;0;0;0;6;2;4;67;85;69;73;0;0;0;0].
@@ -498,5 +582,6 @@ Proof. vm_compute. split; reflexivity. Qed.
 
 Print Assumptions new_scte35_nodiv.
 Print Assumptions new_scte35_guarded_total.
+Print Assumptions guard_exact.
 Print Assumptions parse_descriptor_fine.
 Print Assumptions parse_command_fine.
